@@ -57,7 +57,7 @@ CLAIM = dict(
          "covering handler around that call (true today: F10b, known finding; the disjunct vanishes once the call is guarded: "
          "load_total_of_guarded); marshal_site_guarded and unguarded_sites_known re-prove from the source that no other decoder call "
          "is unguarded; load_sound - load(write(ck, code)) is a hit with exactly code iff ck is the current source's checksum, any "
-         "other checksum a miss; foreign_magic_miss, short_entry_miss; fs_crash_safe - after every prefix of dump_bytecode's "
+         "other checksum a miss; foreign_magic_miss, short_entry_miss; fs_fault_safe - an exception at any step of dump_bytecode leaves the old entry, no temporary and propagates unless it is an OSError from os.replace; fs_crash_safe - after every prefix of dump_bytecode's "
          "operations (read from the source: temporary beside the entry, writes, close, os.replace), from every prior directory, the "
          "entry's name holds its previous content or the complete new entry, nothing else but the temporary changes and the "
          "temporary's name differs from the entry's; memcache_errors - with ignore_memcache_errors a failing client is a miss, "
@@ -874,9 +874,9 @@ def run(ctx, res):
         import time
         t = [time.monotonic()]
         stats["read_from_source"] = check_tables(res, jinja2)
-        s1 = run_unit(ctx, res, jinja2, stats)
+        s2 = run_write_path(ctx, res, jinja2, root, stats)      # first: forks are cheap while the process is small
         t.append(time.monotonic())
-        s2 = run_write_path(ctx, res, jinja2, root, stats)
+        s1 = run_unit(ctx, res, jinja2, stats)
         t.append(time.monotonic())
         s3 = run_histories(ctx, res, jinja2, root, stats)
         t.append(time.monotonic())
